@@ -314,6 +314,92 @@ Definition render_table_f (share : Z -> Z -> Z -> Z) (on : bool) (f : formatter)
     Ok (st, snd d)
   end.
 
+(* ---- the table as the code runs it, wrapped cells with markup included (no theorem is about this layer) ----
+   CellWrapper._wrap_column hands the RAW cell to textwrap (a TODO in the code) and measures with the formatter:
+   get_max_word_length(cell, formatter) - skipped once a word cut has been noted -, textwrap.wrap(cell, width),
+   get_max_line_length(wrapped cell, formatter).  Tags can be cut, an escaping backslash can be parted from its '<'; what the
+   formatter then does (markup characters read as text, a style left open, ValueError) is what the code does.
+   On a table in which no cell holding '<' has to be wrapped this layer computes what render_table_f computes (compared on
+   every run: run_C14 asks this layer only when render_table_f answered Err (Other 20)). *)
+Definition wrap_cell_r (w : Z) (f : formatter) (cuts : bool) (cell : str) (len : Z) : res (formatter * (str * Z * bool * bool)) :=
+  if (w <? len)%Z then
+    do x <- (if cuts then Ok (f, true)
+             else do y <- remove_format f cell; Ok (fst y, (w <? max_word (snd y) 0 0)%Z));
+    do ls <- wrap cell w;
+    let wc := join_with 10%N ls in
+    do z <- remove_format (fst x) wc;
+    Ok (fst z, (wc, max_line_len (snd z), true, snd x))
+  else Ok (f, (cell, len, false, cuts)).
+Fixpoint wrap_col_r (col : nat) (w : Z) (f : formatter) (rows : list (list str)) (lens : list (list Z)) (wr cu : bool)
+  : res (formatter * (list (list str) * list (list Z) * bool * bool)) :=
+  match rows, lens with
+  | row :: rows', ln :: lens' =>
+    do x <- wrap_cell_r w f cu (nth col row []) (nth col ln 0%Z);
+    let '(c', l', wrapped, cu') := snd x in
+    do y <- wrap_col_r col w (fst x) rows' lens' (wr || wrapped) cu';
+    let '(rs, ls, wr', cu'') := snd y in
+    Ok (fst y, (set_nth col c' row :: rs, set_nth col l' ln :: ls, wr', cu''))
+  | _, _ => Ok (f, ([], [], wr, cu))
+  end.
+Definition fit_column_r (col : nat) (w : Z) (f : formatter) (st : fitst) : res (formatter * fitst) :=
+  do x <- wrap_col_r col w f (f_rows st) (f_lens st) (f_wraps st) (f_cuts st);
+  let '(rs, ls, wr, cu) := snd x in
+  Ok (fst x, {| f_rows := rs; f_lens := ls; f_cols := set_nth col (col_max col ls) (f_cols st); f_wraps := wr; f_cuts := cu |}).
+Fixpoint distribute_r (share : Z -> Z -> Z -> Z) (av : Z) (long : list (option Z)) (col : nat) (actual rem : Z) (f : formatter) (st : fitst)
+  : res (formatter * fitst) :=
+  match long with
+  | [] => Ok (f, st)
+  | None :: r => distribute_r share av r (S col) actual rem f st
+  | Some len :: r =>
+    let after := count_some r in
+    do w <- (if (after =? 0)%Z then Ok rem
+             else if (actual =? 0)%Z then Err (Other 9)
+             else Ok (Z.max 1 (Z.min (share len actual av) (rem - after))));
+    do x <- fit_column_r col w f st;
+    let new := nth col (f_cols (snd x)) 0%Z in
+    distribute_r share av r (S col) (actual - len + new) (rem - new) (fst x) (snd x)
+  end.
+Definition fit_r (share : Z -> Z -> Z -> Z) (f : formatter) (max_total : Z) (n : nat) (cells : list str) : res (formatter * fitst) :=
+  let cs := map t_rstrip cells in
+  match n, cs with
+  | O, _ :: _ => Err (Other 3)
+  | _, _ =>
+    do m <- measure f cs;
+    do st <- init_state_l n cs (snd m);
+    if (zsum (f_cols st) <=? max_total)%Z then Ok (fst m, st)
+    else
+      match n with
+      | O => Err (Other 9)
+      | _ =>
+        match short_loop (S n) (Z.of_nat n) (map Some (f_cols st)) max_total with
+        | None => Err (Other 8)
+        | Some (av, long) => distribute_r share av long 0 (sum_some long) av (fst m) st
+        end
+      end
+  end.
+(* Table.render(io, indentation); the formatter it leaves behind comes back as well *)
+Definition render_table_r (share : Z -> Z -> Z -> Z) (on : bool) (f : formatter) (s : tstyle) (n : nat) (header : list str) (rows : list (list str)) (W ind : Z)
+  : res (formatter * (fitst * str)) :=
+  match rows with
+  | [] => Ok (f, (empty_fit, []))
+  | _ =>
+    do x <- fit_r share f (available_width s W ind (Z.of_nat n)) n (header ++ concat rows);
+    let st := snd x in
+    do al <- alignments s (length (f_cols st));
+    do d <- draw_table_f on s header ind st al (fst x);
+    Ok (fst d, (st, snd d))
+  end.
+(* rendering the same table again on the same output: the same text?  (The formatter is the only state a render leaves
+   behind: when it is as it was, the second render is the first.) *)
+Definition stack_eqb (a b : stack) : bool := (Nat.eqb (length a) (length b)) && forallb (fun p => pstyle_eqb (fst p) (snd p)) (combine a b).
+Definition second_same (share : Z -> Z -> Z -> Z) (on : bool) (f f1 : formatter) (s : tstyle) (n : nat) (header : list str) (rows : list (list str)) (W ind : Z)
+  (text : str) : bool :=
+  if stack_eqb (f_stack f) (f_stack f1) then true
+  else match render_table_r share on f1 s n header rows W ind with
+       | Ok x => str_eqb (snd (snd x)) text
+       | Err _ => false
+       end.
+
 (* the shape of a style under which the drawn lines form a rectangle (true of the four presets; checked on every case) *)
 Definition is_nil (s : str) : bool := match s with [] => true | _ => false end.
 Definition wf_borderb (vl vc vr lc l c r : str) : bool :=
@@ -352,14 +438,45 @@ Definition dec_fmt (fk sa set : sexp) : option (res (bool * formatter)) :=
   | Some k, A sa, Some set => Some (do f <- new_formatter k set; Ok (format_on (negb (sa =? 0)%Z) k, f))
   | _, _, _ => None
   end.
+(* a whole table: Ok -> column widths, wrapped rows, flags, text, style well-formed, outside (a cell holding '<' had to be
+   wrapped: the tagged theorems do not speak, the raw layer answered), second render gives the same text *)
+Definition table_out (share : Z -> Z -> Z -> Z) (on : bool) (f : formatter) (s : tstyle) (n : nat) (header : list str) (rows : list (list str)) (W ind : Z)
+  : res (list sexp) :=
+  match render_table_f share on f s n header rows W ind with
+  | Err (Other 20) =>
+    match render_table_r share on f s n header rows W ind with
+    | Ok x => Ok (enc_fit (fst (snd x)) ++ [sStr (snd (snd x)); sB (wf_styleb s); sB true;
+                                              sB (second_same share on f (fst x) s n header rows W ind (snd (snd x)))])
+    | Err k => Err k
+    end
+  | Ok x =>
+    (* without any '<' the formatter is left as it was; otherwise (unbalanced markup leaves styles open) the raw layer,
+       which computes the same table here (checked: else the flag is off, which no implementation run agrees with unless its
+       second render differs too), says what the formatter is afterwards *)
+    let same := if existsb has_lt (header ++ concat rows)
+                then match render_table_r share on f s n header rows W ind with
+                     | Ok y => str_eqb (snd (snd y)) (snd x) && second_same share on f (fst y) s n header rows W ind (snd x)
+                     | Err _ => false
+                     end
+                else true in
+    Ok (enc_fit (fst x) ++ [sStr (snd x); sB (wf_styleb s); sB false; sB same])
+  | Err k => Err k
+  end.
 Definition run_C14 (share : Z -> Z -> Z -> Z) (s : sexp) : sexp :=
   match s with
   (* a whole table *)
   | L [A 0%Z; A W; A ind; A n; sty; header; rows; fk; sa; set] =>
     match dec_tstyle sty, dList dStr header, dList (dList dStr) rows, dec_fmt fk sa set with
     | Some sty, Some header, Some rows, Some fm =>
-      sRes (fun x => L (enc_fit (fst x) ++ [sStr (snd x); sB (wf_styleb sty)]))
-           (do of <- fm; render_table_f share (fst of) (snd of) sty (Z.to_nat n) header rows W ind)
+      sRes (fun x => L x) (do of <- fm; table_out share (fst of) (snd of) sty (Z.to_nat n) header rows W ind)
+    | _, _, _, _ => sBad
+    end
+  (* the raw layer alone, whatever the cells (to compare the two layers where both speak) *)
+  | L [A 2%Z; A W; A ind; A n; sty; header; rows; fk; sa; set] =>
+    match dec_tstyle sty, dList dStr header, dList (dList dStr) rows, dec_fmt fk sa set with
+    | Some sty, Some header, Some rows, Some fm =>
+      sRes (fun x => L (enc_fit (fst (snd x)) ++ [sStr (snd (snd x))]))
+           (do of <- fm; render_table_r share (fst of) (snd of) sty (Z.to_nat n) header rows W ind)
     | _, _, _, _ => sBad
     end
   (* CellWrapper.fit alone *)
